@@ -177,6 +177,22 @@ def judge(ctx: Ctx, rec: dict, dev: int, source: str, reported: set) -> bool:
                       f"[INI: {render_ini(rec['cfg'])!r}]", {"source": source, "cfg": rec["cfg"], "model_deviation": 0})
         return False
     ok = True
+    # "the same sections, nesting": for section names none of which is a dotted prefix of another, the sections of the
+    # configuration are exactly the sections of the INI text, each under its full dotted path with its own options
+    names = [S(x["name"]) for x in rec["cfg"]["sections"]]
+    conflict_free = len(set(names)) == len(names) and not any(
+        a != b and (a.startswith(b + ".") or b.startswith(a + ".")) for a in names for b in names)
+    if conflict_free and all(n and ".." not in n and not n.startswith(".") and not n.endswith(".") for n in names):
+        want = {n: {S(k) for k, _ in x["opts"]} for n, x in zip(names, rec["cfg"]["sections"])}
+        got = {n: set(o) for n, o in view.items()}
+        if set(got) != set(want) or any(not want[n] <= got[n] for n in want):
+            ok = False
+            report(ctx, f"the sections of the configuration are not the sections of the INI text: INI has {sorted(want)}, "
+                        f"Config shows {sorted(got)} (options per section: INI {{n: sorted(o) for n, o in want.items()}} / "
+                        f"Config {{n: sorted(o) for n, o in got.items()}})   [INI: {render_ini(rec['cfg'])!r}]".replace(
+                            "{{n: sorted(o) for n, o in want.items()}}", str({n: sorted(o) for n, o in want.items()})).replace(
+                            "{{n: sorted(o) for n, o in got.items()}}", str({n: sorted(o) for n, o in got.items()})),
+                   {"source": source, "cfg": rec["cfg"], "what": "sections"})
     back = as_map(rec["back"])
     if back == "ERR" or back != view:
         ok = False
@@ -377,6 +393,10 @@ def run(ctx: Ctx) -> None:
                 ctx.require(False, f"TLC rejects the law on a recorded case that holds on re-examination: {render_ini(rec['cfg'])!r}")
             if dev and not law_ok:
                 hits.append(1)
+        if not view_ok and law_ok and rlaw_ok:
+            # TLC: the Config's view is not the model's view of this INI text although the round trip is self-consistent:
+            # decide on the real objects whether the sections of the INI survived (judge's first clause)
+            judge(ctx, rec, dev, "generated", reported)
         if not (view_ok and dict_ok and repl_ok):
             drift.append({"ini": render_ini(rec["cfg"]), "verdict": verdicts[i], "real_view": as_map(rec["view"]),
                           "real_dict": as_map(rec["dict"]), "errors": rec["errors"]})
